@@ -4,6 +4,7 @@
 import JumanjiModel.Bridge.Json
 import JumanjiModel.Env.TSP.Model
 import JumanjiModel.Env.TSP.Bounds
+import JumanjiModel.Env.TSP.Spec
 open Lean Jb
 
 namespace Jb.TSP
@@ -93,7 +94,12 @@ def opInstance : Op := fun j => do
               ("generate_cert", jBool (decide (GenCert n s))),
               ("is_generate_of_its_draw", jBool (decide (s = generate n s.coords))),
               ("reset_feasible", jBool (decide (Feasible n s))),
-              ("distances_ok", jBool (decide (DistOK n D)))])
+              ("distances_ok", jBool (decide (DistOK n D))),
+              -- wave 3 (C01): the invariant behind `tsp_step_obs_valid`; the reset observation is a member of the spec with the
+              -- position leaf widened to [−1, n−1] and (finding F5) NOT of the declared one
+              ("spec_inv", jBool (decide (SpecInv n s))),
+              ("reset_obs_in_wide_spec", jBool ((obsSpecWide n).valid (toNValue (obsOf s)))),
+              ("reset_obs_rejected_as_F5", jBool (!(obsSpec n).valid (toNValue (obsOf s))))])
 
 def jBounds (t : Jm.OB.Table) : Json :=
   jObj (t.map fun e => (e.1, jObj [("lo", match e.2.1 with | some r => jRat r | none => Json.null),
